@@ -153,7 +153,8 @@ reg('C10', engine='pysym + llsym',
          'ints, solver-guided forking) against GCC\'s underlying-type rule and C\'s increment rule; the real '
          'b_new_enum_type/convert_cdata_to_enum_string run in llsym with an abstract dict: ffi.string gives the first '
          'declared name with that value or the decimal number.; API mode: the _cffi_prim_int/_cffi_prim_float macros map every (size, sign) to the fixed-width type of that size and sign; '
-         'out-of-line ABI mode: every enumerator value in [-2**63, 2**64) comes back exactly through the module\'s _globals unpacking.',
+         'out-of-line ABI mode: every enumerator value in [-2**63, 2**64) comes back exactly through the module\'s _globals unpacking, and '
+         'the module\'s enum entry denotes the integer type of the enum\'s size and signedness for each of the 8 rows.',
     note='Trusted: pysym proxies, llsym semantics, GCC\'s enum rule as stated, abstract dict model. API-mode enum '
          'size/sign (taken from the compiler) not covered.',
     technique='symbolic execution via proxy values (Python) and of LLVM IR (C), SMT (z3)')
@@ -290,7 +291,8 @@ reg('C21', engine='llsym',
 reg('C22', engine='llsym',
     text='Partial, rely/guarantee style: the real errno get/set functions and the real call brackets (cdata_call, '
          'invoke_callback, cffi_call_python, global-variable fetch) run with errno and the saved value as this thread\'s '
-         'symbolic cells and errno havocked at every point where other code of the thread can run: errno at C entry == '
+         'symbolic cells and errno havocked at every point where other code of the thread can run (incl. an extern "Python" function '
+         'with no code attached, which must leave the caller\'s errno alone): errno at C entry == '
          'value assigned, ffi.errno afterwards == errno at C return, for every value including 0; the saved cell must be '
          'thread_local in the IR.',
     note='Trusted: per-thread storage of __thread variables and errno (compiler/libc); generated API-mode wrappers use the same '
@@ -302,7 +304,7 @@ reg('C13', engine='llsym',
          'argument: offsets aligned, areas disjoint and inside exchange_size, second pass writes exactly the counted bytes; '
          '(c) wrappers generated at run time by the working tree\'s Recompiler for a family of identity functions are '
          'compiled to IR and executed together with the backend IR: the C function receives exactly the value the libffi '
-         'path\'s convert_from_object stores for the same Python object, same exceptions, errno bracket in place; in two multi-argument wrappers every argument reaches its own parameter; a struct argument with '
+         'path\'s convert_from_object stores for the same Python object, same exceptions, errno bracket in place; in two multi-argument wrappers every argument reaches its own parameter, and with two invalid arguments (a pointer before / after an integer) the left-most one is reported, as on the libffi path; a struct argument with '
          '(multi-dimensional) array fields is flattened exactly into libffi\'s elements[].',
     note='Trusted: clang IR of backend and generated code, llsym semantics, CPython contracts. libffi itself, struct-by-value, '
          'variadic calls, pointer/char arguments and dlopen paths are not covered.',
@@ -314,7 +316,7 @@ reg('C12', engine='llsym',
          'realize_global_int raise FFIError iff a stated cdef value differs from the compiler\'s, and otherwise return exactly '
          'the compiler\'s value (always so for unchecked "static const" constants); (2) b_complete_struct_or_union in '
          'compiler-provided mode with symbolic offsets/sizeof/alignof: with the check flag FFIError iff some number differs '
-         'from what the cdef implies, with "..." the compiler\'s numbers are recorded verbatim; (3) detect_custom_layout; (4) the same constants used as an array length in a type string (parse_c_type): accepted iff the cdef agrees with the compiler and the value is non-negative, with the compiler\'s value.',
+         'from what the cdef implies, with "..." the compiler\'s numbers are recorded verbatim; (3) detect_custom_layout; (4) the same constants used as an array length in a type string (parse_c_type): accepted iff the cdef agrees with the compiler and the value is non-negative, with the compiler\'s value. (5) structurally: every enum that has a C name takes its size and signedness from the compiler (sizeof / sign expression), not from the enumerators the cdef lists.',
     note='Trusted: clang IR, llsym semantics, CPython contracts. Functions/variables plumbing is C13; import machinery, '
          'verify() and the compile step are outside.',
     technique='symbolic execution of LLVM IR (backend + run-time generated module) with the C compiler\'s answers as symbolic inputs, SMT (z3)')
